@@ -91,22 +91,26 @@ WB(cc) == LET f == Field(cc)  L == cc.L
               shr == RDiv(RMul(RMul(RDiv(cc.E, RMul(RSq(L), L)),
                         RAdd(RAdd(RNeg(RMul(R(12), u0[2])), RNeg(RMul(RMul(R(6), r0[3]), L))), RAdd(RMul(R(12), u1[2]), RNeg(RMul(RMul(R(6), r1[3]), L))))), cc.Qz),
                         RMul(R(2), cc.tsp))
-          IN <<RAdd(RSq(RAdd(RAdd(top, rear), ax)), RMul(R(3), RSq(tors))),
+              \* the two combinations on the UPPER skin are divided (as a whole) by its strength knock-down factor tssf
+              k2 == RSq(cc.tssf)
+          IN <<RDiv(RAdd(RSq(RAdd(RAdd(top, rear), ax)), RMul(R(3), RSq(tors))), k2),
                RAdd(RSq(RAdd(RAdd(bot, frt), ax)), RMul(R(3), RSq(tors))),
                RAdd(RSq(RAdd(frt, ax)), RMul(R(3), RSq(RSub(tors, shr)))),
-               RAdd(RSq(RAdd(rear, ax)), RMul(R(3), RSq(RAdd(tors, shr))))>>
+               RDiv(RAdd(RSq(RAdd(rear, ax)), RMul(R(3), RSq(RAdd(tors, shr)))), k2)>>
 WBCase == c.kind = "wingbox"
 WBNonNegative == WBCase => \A i \in 1..4 : ~RLt(WB(c)[i], RZero)
 WBRigidInvariant == WBCase => WB(c) = WB([c EXCEPT !.rigid = [t |-> ZeroV, w |-> ZeroV]])
 WBQuadratic == WBCase => LET base == WB([c EXCEPT !.scale = ROne]) IN WB(c) = [i \in 1..4 |-> RMul(RSq(c.scale), base[i])]
 \* closed forms: pure axial -> all four (E dL/L)^2; constant curvature about local z (bending in the local x-y plane) -> top/bottom skins E kz h
 WBClosedForms == WBCase => LET v == WB(c)  k == RSq(c.scale) IN
-   /\ (S.ky[1] = 0 /\ S.kz[1] = 0 /\ S.dphi[1] = 0) => \A i \in 1..4 : v[i] = RMul(k, RSq(RDiv(RMul(c.E, S.du), c.L)))
+   /\ (S.ky[1] = 0 /\ S.kz[1] = 0 /\ S.dphi[1] = 0) => \A i \in 1..4 : v[i] = RDiv(RMul(k, RSq(RDiv(RMul(c.E, S.du), c.L))), IF i \in {1, 4} THEN RSq(c.tssf) ELSE ROne)
    /\ (S.du[1] = 0 /\ S.dphi[1] = 0 /\ S.ky[1] = 0) =>
-         /\ v[1] = RMul(k, RSq(RMul(RMul(c.E, S.kz), c.htop)))                \* sigma = E kappa h at the upper skin
+         /\ v[1] = RDiv(RMul(k, RSq(RMul(RMul(c.E, S.kz), c.htop))), RSq(c.tssf))   \* sigma = E kappa h at the upper skin, knocked down
          /\ v[2] = RMul(k, RSq(RMul(RMul(c.E, S.kz), c.hbot)))
    /\ (S.du[1] = 0 /\ S.ky[1] = 0 /\ S.kz[1] = 0) =>                          \* pure torsion: tau = G J dphi / (L 2 t A_enc) (Bredt)
-         v[1] = RMul(k, RMul(R(3), RSq(RDiv(RMul(RMul(c.G, c.J), S.dphi), RMul(RMul(c.L, RMul(R(2), c.tsp)), c.Aenc)))))
+         /\ v[1] = RDiv(RMul(k, RMul(R(3), RSq(RDiv(RMul(RMul(c.G, c.J), S.dphi), RMul(RMul(c.L, RMul(R(2), c.tsp)), c.Aenc))))), RSq(c.tssf))
+         /\ v[4] = v[1]                                                      \* same stress state, same knocked-down allowable
+         /\ v[2] = RMul(v[1], RSq(c.tssf))
 
 (* ---------------- KS aggregation --------------------------------------------------------------------- *)
 \* f_i = vm_i / sigma - 1 ; fmax = max f_i ; KS = fmax + (1/rho) Ln( sum Exp( rho (f_i - fmax) ) )
@@ -130,8 +134,8 @@ Rigids == {[t |-> ZeroV, w |-> ZeroV], [t |-> <<R(1), R(-2), <<1, 2>>>>, w |-> Z
 TubeCases == {[kind |-> "tube", d |-> d, L |-> L, E |-> R(7), G |-> R(3), rad |-> <<1, 5>>, state |-> s, rigid |-> rg, scale |-> sc] :
                 d \in Dirs, L \in {R(2), R(5)}, s \in States, rg \in Rigids, sc \in {ROne, R(-3), <<1, 2>>}}
 WBCases == {[kind |-> "wingbox", d |-> d, L |-> L, E |-> R(7), G |-> R(3), J |-> <<1, 3>>, tsp |-> <<1, 10>>, Aenc |-> <<1, 2>>, Qz |-> <<1, 5>>,
-             htop |-> <<1, 4>>, hbot |-> <<1, 5>>, hfront |-> <<1, 2>>, hrear |-> <<2, 5>>, state |-> s, rigid |-> rg, scale |-> sc] :
-                d \in Dirs, L \in {R(2)}, s \in States, rg \in Rigids, sc \in {ROne, R(-3)}}
+             htop |-> <<1, 4>>, hbot |-> <<1, 5>>, hfront |-> <<1, 2>>, hrear |-> <<2, 5>>, state |-> s, rigid |-> rg, scale |-> sc, tssf |-> tf] :
+                d \in Dirs, L \in {R(2)}, s \in States, rg \in Rigids, sc \in {ROne, R(-3)}, tf \in {ROne, <<4, 5>>}}
 KSVecs == {<<R(100)>>, <<R(100), R(100), R(100)>>, <<R(50), R(400), R(10)>>, <<R(0), R(0)>>, <<R(10000000), R(1), R(9999999)>>, <<R(199), R(200), R(201), R(150)>>,
            <<R(3), R(2), R(1)>>, <<R(0), R(5000), R(0)>>}
 KSCases == {[kind |-> "ks", sigma |-> R(200), rho |-> r, vm |-> v] : v \in KSVecs, r \in {R(100), R(1000)}}   \* rho is a public option: default and very tight
